@@ -29,6 +29,8 @@ type IntrospectCase struct {
 	Labels []string `json:"labels,omitempty"`
 	// Ops: operations (valid or not) whose validation verdict must agree between S and its reconstruction
 	Ops []ServiceOp `json:"ops,omitempty"`
+	// EmptyErrors: the services add "errors": [] to their (successful) answers
+	EmptyErrors bool `json:"empty_errors,omitempty"`
 }
 
 // specResponder answers whatever introspection operation it is sent, per the spec.
@@ -77,14 +79,23 @@ func answerIntrospection(schema *ast.Schema, query string, opName *string, vars 
 	if schema.Query != nil {
 		root = schema.Query.Name
 	}
-	return map[string]interface{}{"data": r.ResolveRoot(op.SelectionSet, root)}
+	ans := map[string]interface{}{"data": r.ResolveRoot(op.SelectionSet, root)}
+	if emptyErrorsKey {
+		ans["errors"] = []interface{}{} // some servers always send the key; an empty list is no error
+	}
+	return ans
 }
+
+// emptyErrorsKey: the fake services add "errors": [] to their successful introspection answers (set per case)
+var emptyErrorsKey bool
 
 func c15Facts(s *ast.Schema) map[string]bool {
 	return schemaFacts(s, factOpts{Descriptions: true, Deprecations: true, Roots: true})
 }
 
 func checkC15(c *IntrospectCase) *ev.Failure {
+	emptyErrorsKey = c.EmptyErrors
+	defer func() { emptyErrorsKey = false }()
 	sr := &specResponder{schemas: map[string]*ast.Schema{}}
 	var urls []string
 	var sources []*ast.Schema
@@ -167,7 +178,7 @@ func TestC15(t *testing.T) {
 	defer census.dump("C15")
 	rapid.Check(t, func(t *rapid.T) {
 		n := rapid.SampledFrom([]int{1, 1, 1, 2, 3}).Draw(t, "nschemas")
-		c := &IntrospectCase{}
+		c := &IntrospectCase{EmptyErrors: rapid.IntRange(0, 3).Draw(t, "emptyerrors") == 0}
 		o := sdlgen.DefaultOptions()
 		o.DeepWrappers = rapid.IntRange(0, 9).Draw(t, "deep") == 0
 		// closed gates of open findings switch generator features off (counted by the classifier below)
